@@ -3,11 +3,11 @@
 A case line is  "se <seed> <session_timeout_s> <max_idle_sessions> <op>*"  (ops documented in the
 driver).  All randomness comes from the random.Random handed in (tie.rng_for)."""
 
-RX_KINDS = "gcsoOdDahbnBxvem"
+RX_KINDS = "gcsoOdDahbnBxvempqP"
 # weights: plain traffic dominates, every reference holder appears regularly
 RX_WEIGHTS = {
     "g": 10, "c": 6, "s": 6, "o": 5, "O": 5, "d": 2, "D": 2, "a": 4, "h": 4,
-    "b": 2, "n": 2, "B": 1, "x": 1, "v": 1, "e": 1, "m": 3,
+    "b": 2, "n": 2, "B": 1, "x": 1, "v": 1, "e": 1, "m": 3, "p": 2, "q": 1, "P": 1,
 }
 
 
@@ -132,6 +132,8 @@ def boundary_cases():
     out.append("se 20 2 2 rx:0:a rx:1:a adv:2000 prep adv:2000 prep ack:0 adv:100000 prep")
     # block-wise response state hanging off a session that is reclaimed / torn down
     out.append("se 21 1 0 rx:0:b rx:0:n adv:1000 prep rx:1:b free")
+    # block-wise uploads: complete, abandoned (reclaimed with the session), cut by the teardown
+    out.append("se 25 1 0 rx:0:p rx:0:q rx:0:P rx:1:p rx:1:q adv:1000 prep rx:2:p free")
     # the SESSION_NEW handler keeps every second session: those are never idle
     out.append("se 24 1 2 evref:2 rx:0:g rx:1:g rx:2:g rx:3:g adv:1000 prep rx:4:g rel:0 rel:2 adv:1000 prep rx:5:g rel:4 free")
     # multicast request: the delayed response (queue node) keeps the session past its timeout
